@@ -302,6 +302,8 @@ func genFuncR(p *Program, w *World, fn *ssa.Function, con *Contract, excepts map
 		// vacuity guard: some return is reachable
 		o := e.oblig(&State{Reach: "true"}, "cover", "return-reachable", not(out.Reach), "some return reachable", "")
 		o.Cover = true
+		coverTerms := map[string][]string{}
+		coverSrc := map[string]Clause{}
 		for ri, r := range e.topRets {
 			env2 := *env
 			env2.St = r.st
@@ -329,6 +331,13 @@ func genFuncR(p *Program, w *World, fn *ssa.Function, con *Contract, excepts map
 					e.Assumptions["derived-clause:"+en.ID+" follows by lemma "+con.Derived[en.ID]] = true
 					continue
 				}
+				if strings.HasPrefix(en.ID, "cover_") {
+					// vacuity guard written in the contract: the condition holds at SOME return of
+					// SOME execution (one obligation over all returns, answer sat expected)
+					coverTerms[en.ID] = append(coverTerms[en.ID], and(r.st.Reach, e.elabClause(&env2, en)))
+					coverSrc[en.ID] = en
+					continue
+				}
 				t := e.elabClause(&env2, en)
 				what := fmt.Sprintf("%s@ret%d", en.ID, ri+1)
 				if ref != nil {
@@ -337,6 +346,11 @@ func genFuncR(p *Program, w *World, fn *ssa.Function, con *Contract, excepts map
 				po := e.oblig(r.st, postKind, what, t, en.Src, fmt.Sprintf("%s:%d return at %s", shortFile(en.File), en.Line, r.pos))
 				po.RetVals = r.vals
 			}
+		}
+		for _, id := range sortedKeys(coverTerms) {
+			en := coverSrc[id]
+			o := e.oblig(&State{Reach: "true"}, "cover", id, not(or(coverTerms[id]...)), en.Src, fmt.Sprintf("%s:%d", shortFile(en.File), en.Line))
+			o.Cover = true
 		}
 		_ = rets
 	}
